@@ -602,9 +602,9 @@ func errlocStream(r *Run) {
 			r.Emit(c, replayers["errloc"](r, f))
 		}
 	}
-	nSkel := 40
+	nSkel := 150
 	if r.Tier == "thorough" {
-		nSkel = 700
+		nSkel = 1000
 	}
 	combo := 0
 	for s := 0; s < nSkel; s++ {
@@ -642,13 +642,12 @@ func errlocStream(r *Run) {
 		if strictOK {
 			r.Count("skeleton-strict-ok")
 		}
-		fullSkel, _, _ := sk.assemble(0, nil)
 		for at := 0; at <= len(sk.pieces); at++ {
 			ctx := sk.ctxs[at]
 			for ki := range elKinds {
 				k := &elKinds[ki]
 				// one variant, one (path, start) combination per placement, cycling through all of them;
-				// the thorough tier takes every combination for one kind in eight
+				// the thorough tier takes all six combinations for about one placement in eight
 				v := k.variants[g.Intn(len(k.variants))]
 				pre := g.Pick(elSeps)
 				if at == 0 {
@@ -671,6 +670,33 @@ func errlocStream(r *Run) {
 				if k.name == "stray-end" && elBlockOf[elTagName(v.src)] == ctx.top() {
 					continue
 				}
+				var combos [][2]int
+				if all {
+					for pi := range elPaths {
+						for si := range elStarts {
+							combos = append(combos, [2]int{pi, si})
+						}
+					}
+				} else {
+					combos = [][2]int{{combo % 2, (combo / 2) % 3}}
+					combo++
+				}
+				// every shard draws the same random sequence and counts the same cases; only the owner of
+				// a case assembles and runs it
+				type pick struct {
+					c      [2]int
+					strict bool
+				}
+				var mine []pick
+				for _, c := range combos {
+					alsoStrict := strictOK && g.Chance(10)
+					if r.Mine() {
+						mine = append(mine, pick{c, alsoStrict})
+					}
+				}
+				if len(mine) == 0 {
+					continue
+				}
 				construct := elPiece{pre, v.src, 'X', ""}
 				src, pieces, offs := sk.assemble(at, &construct)
 				off := offs[at] + v.failOff
@@ -690,31 +716,19 @@ func errlocStream(r *Run) {
 						continue
 					}
 				}
-				_ = fullSkel
-				var combos [][2]int
-				if all {
-					for pi := range elPaths {
-						for si := range elStarts {
-							combos = append(combos, [2]int{pi, si})
-						}
-					}
-				} else {
-					combos = [][2]int{{combo % 2, (combo / 2) % 3}}
-					combo++
-				}
-				for _, c := range combos {
-					alsoStrict := strictOK && g.Chance(10) // drawn before Mine(): every shard draws the same sequence
-					if !r.Mine() {
-						continue
-					}
+				for _, pk := range mine {
+					c, alsoStrict := pk.c, pk.strict
 					cfg := engineCfg{Strict: k.strict || alsoStrict}
 					path, start := elPaths[c[0]], elStarts[c[1]]
 					if k.fs {
 						cfg.FS, path = elFS, mainTemplateName
 					}
-					e2 := make(map[string]*V, len(env)+1)
+					// only the bindings whose name occurs in the source (no other can be read): short case lines
+					e2 := make(map[string]*V, 8)
 					for kk, vv := range env {
-						e2[kk] = vv
+						if strings.Contains(src, kk) {
+							e2[kk] = vv
+						}
 					}
 					ex := fmt.Sprintf("%s:%d", k.name, off)
 					if expKind != "" {
